@@ -504,6 +504,9 @@ func checkC19(p *core.Program, r *core.Report) {
 							if a := allocBehind(ld.X, 0, 0); a != nil {
 								obj = a
 								scanFns = append(append([]*ssa.Function{}, fns...), a.Parent())
+							} else if a, ok := bigObject(ld.X, 0).(*ssa.Alloc); ok {
+								// h, ok := new(big.Int).SetString(…): the receiver-returning method's object
+								obj = a
 							}
 						}
 					}
